@@ -304,7 +304,7 @@ func c16Body(s *simkit.Sim, rc *simkit.RunCtx) {
 	}
 
 	// ---- defective registrations by a scripted client ----
-	defects := []string{"wrong-audience", "valid-too-long", "json-ld-format", "no-credentials", "surplus-credential", "retract-unknown", "outlives-credential", "outlives-credential", "missing-credential", "control-valid"}
+	defects := []string{"wrong-audience", "valid-too-long", "json-ld-format", "no-credentials", "surplus-credential", "retract-unknown", "retract-unknown-jti", "retract-foreign", "retract-foreign", "outlives-credential", "outlives-credential", "missing-credential", "control-valid"}
 	postDefective := func(kind string) {
 		sub := subjects[s.D.Decide("defect-subject", len(subjects))]
 		n := clients[sub.node]
@@ -363,9 +363,31 @@ func c16Body(s *simkit.Sim, rc *simkit.RunCtx) {
 				return
 			}
 			req["verifiableCredentials"] = []json.RawMessage{regCred, short}
-		case "retract-unknown":
-			req["type"] = []string{"RetractedVerifiablePresentation"}
-			req["verifiableCredentials"] = []json.RawMessage{}
+		}
+		isRetraction := kind == "retract-unknown" || kind == "retract-unknown-jti" || kind == "retract-foreign"
+		// a retraction that names the live entry of ANOTHER subject: fetch the server's list first
+		victimJTI := ""
+		if kind == "retract-foreign" {
+			lr, _ := http.NewRequest("GET", "https://nodea.sim/discovery/sim-svc?timestamp=0", nil)
+			if resp, err := w.HTTP.RoundTrip(lr); err == nil && resp.StatusCode == 200 {
+				var la listAnswer
+				if json.NewDecoder(resp.Body).Decode(&la) == nil {
+					var keys []string
+					for k := range la.Entries {
+						keys = append(keys, k)
+					}
+					sort.Strings(keys)
+					for _, k := range keys {
+						if vp, err := parseJWTVP(la.Entries[k]); err == nil && !vp.Retract && vp.Signer != sub.did && vp.ID != "" && vp.Exp.After(time.Now().Add(time.Minute)) {
+							victimJTI = vp.ID
+						}
+					}
+				}
+			}
+			if victimJTI == "" {
+				s.Info.Inc("retract-foreign:no-entry-of-another-subject-listed")
+				return
+			}
 		}
 		code, body = n.Call("POST", "/internal/vcr/v2/holder/vp", req)
 		if code != 200 {
@@ -378,6 +400,32 @@ func c16Body(s *simkit.Sim, rc *simkit.RunCtx) {
 		var raw string
 		if json.Unmarshal(body, &raw) != nil {
 			raw = strings.Trim(string(body), "\"\n")
+		}
+		if isRetraction {
+			// The wallet API does not make retractions; the subject's own key signs one (as its node's operator can), made from a
+			// correct registration: no credentials, the retraction type, a fresh id, and retract_jti = nothing at all / an id nobody
+			// registered / the id of the live entry of another subject.
+			target := victimJTI
+			if kind == "retract-unknown-jti" {
+				target = sub.did + "#" + fmt.Sprintf("00000000-0000-4000-8000-%012d", s.D.Decide("unknown-jti", 1000))
+			}
+			raw2, err := n.ResignJWT(raw, func(claims map[string]interface{}) {
+				if vp, ok := claims["vp"].(map[string]interface{}); ok {
+					vp["type"] = []string{"VerifiablePresentation", "RetractedVerifiablePresentation"}
+					delete(vp, "verifiableCredential")
+				}
+				claims["jti"] = sub.did + "#" + fmt.Sprintf("11111111-0000-4000-8000-%012d", s.D.Decide("retraction-jti", 100000))
+				if kind != "retract-unknown" {
+					claims["retract_jti"] = target
+				}
+			})
+			if err != nil {
+				s.Info.Inc("scripted-vp-not-created:" + kind)
+				return
+			}
+			raw = raw2
+			body, _ = json.Marshal(raw)
+			s.Info.Inc("scripted-retraction-posted:" + kind)
 		}
 		id := ""
 		if vp, err := parseJWTVP(raw); err == nil {
